@@ -17,8 +17,8 @@ import time
 import traceback
 
 ROOT = os.path.dirname(os.path.dirname(os.path.abspath(__file__)))
-EVID = os.path.join(ROOT, 'evidence')
-REPLAYS = os.path.join(ROOT, 'replays')
+EVID = os.environ.get('VERIF_EVIDENCE_DIR') or os.path.join(ROOT, 'evidence')
+REPLAYS = os.path.join(os.environ['VERIF_EVIDENCE_DIR'], 'replays') if os.environ.get('VERIF_EVIDENCE_DIR') else os.path.join(ROOT, 'replays')
 KNOWN = os.path.join(ROOT, 'known_findings.json')
 
 
@@ -174,11 +174,17 @@ def main(argv=None):
     seen_classes = set()
     replayed = 0
     n_dups = 0
+    failed_classes = {}
     for r in results:
         for w in r.get('violations', []):
             key = w.get('class', json.dumps(jsonable(w), sort_keys=True))
             if key in seen_classes:
                 n_dups += 1
+                continue
+            if failed_classes.get(key, 0) >= 2:
+                if failed_classes[key] == 2:
+                    inconclusive.append('further counterexamples of class %s not replayed (2 did not reproduce)' % key)
+                failed_classes[key] += 1
                 continue
             try:
                 rp = mod.replay(w)
@@ -186,6 +192,7 @@ def main(argv=None):
                 rp = {'reproduced': False, 'detail': 'replay harness error %s: %s' % (type(e).__name__, e)}
             replayed += 1
             if not rp.get('reproduced'):
+                failed_classes[key] = failed_classes.get(key, 0) + 1
                 inconclusive.append('counterexample did not reproduce on the real library: %s -- %s'
                                     % (json.dumps(jsonable(w))[:400], str(rp.get('detail'))[:300]))
                 continue
